@@ -344,6 +344,10 @@ impl Scenario for W3Scenario {
         if case_seed % 4 == 0 {
             return full_solve_case(case_seed, tier);
         }
+        if case_seed % 12 == 7 {
+            // one case in twelve: another reducer of the seam (footprint accumulation of a generation's batch)
+            return crate::scen::footprint::run_case(case_seed, tier);
+        }
         let (case, features) = make_case(case_seed, tier);
         let mut rec = self.record(&case, Some(&features));
         if case_seed % 499 == 0 {
@@ -356,13 +360,19 @@ impl Scenario for W3Scenario {
         if case_seed % 4 == 0 {
             return crate::scen::w1::W1Scenario { prop: "C15" }.materialise(case_seed, tier);
         }
+        if case_seed % 12 == 7 {
+            return crate::scen::footprint::materialise(case_seed, tier);
+        }
         let (case, features) = make_case(case_seed, tier);
         let mut doc = case.to_json();
         doc["features"] = json!(features.names());
         doc
     }
     fn replay(&self, doc: &Value) -> CaseRecord {
-        if doc.get("kind").and_then(|k| k.as_str()) == Some("w1") {
+        if doc.get("kind").and_then(|k| k.as_str()) == Some("footprint") {
+            return crate::scen::footprint::replay(doc);
+        }
+        if matches!(doc.get("kind").and_then(|k| k.as_str()), Some("w1") | Some("restart")) {
             let mut rec = crate::scen::w1::W1Scenario { prop: "C15" }.replay(doc);
             for i in rec.issues.iter_mut() {
                 if matches!(i.prop.as_str(), "C01" | "C02" | "C03") {
